@@ -70,10 +70,13 @@ structure AmtCodec where
   dom      : Qty → Bool
   fullOk   : Qty → Bool
 
-/-- The date text layer (format_date FMT_WRITTEN / parse_date), a parameter. -/
+/-- The date text layer (format_date FMT_WRITTEN / parse_date), a parameter;
+    `dateDom n` says the layer prints day `n` and reads it back (for ledger: the
+    years boost::gregorian accepts). -/
 structure DateCodec where
   showDate : Int → Str
   readDate : Str → Option Int
+  dateDom  : Int → Bool
 
 structure Codec extends AmtCodec, DateCodec
 
@@ -697,10 +700,11 @@ def postOk (c : AmtCodec) (p : PPost) : Bool :=
       | none => true
       | some b => c.dom b))
 
-def xactOk (c : AmtCodec) (x : PXact) : Bool :=
+def xactOk (c : Codec) (x : PXact) : Bool :=
   decide (x.state ≤ 2) && payeeOk x.payee && optNoteOk x.note &&
   (match x.code with | none => true | some k => codeOk k) &&
-  x.posts.all (postOk c)
+  x.posts.all (postOk c.toAmtCodec) &&
+  c.dateDom x.date && (match x.aux with | none => true | some a => c.dateDom a)
 
 /-! ### what the model needs from the amount and date text layers -/
 
@@ -728,8 +732,8 @@ def dateTextOk (s : Str) : Bool := !s.isEmpty && s.all (fun ch => !isSpaceC ch &
 
 /-- Hypotheses on the date text layer (C14). -/
 structure DateCodec.Lawful (d : DateCodec) : Prop where
-  read_show : ∀ n, d.readDate (d.showDate n) = some n
-  show_ok   : ∀ n, dateTextOk (d.showDate n) = true
+  read_show : ∀ n, d.dateDom n = true → d.readDate (d.showDate n) = some n
+  show_ok   : ∀ n, d.dateDom n = true → dateTextOk (d.showDate n) = true
 
 structure Codec.Lawful (c : Codec) : Prop where
   amt  : c.toAmtCodec.Lawful
